@@ -276,6 +276,14 @@ class Impl:
             else:
                 x = sg.Tensor(a, requires_grad=bool(int(t[4])))
             self.ts.append(x)
+            if RESET_ROUTES and x.data.dtype.kind == 'f':
+                # the objects a training script builds ONCE, right after the parameter exists (whatever its flag is then), and
+                # uses for every later reset: an optimizer over it and, for a Parameter, a module holding it
+                from synapgrad import optim, nn
+                self.leaf_opt = getattr(self, 'leaf_opt', {}); self.leaf_mod = getattr(self, 'leaf_mod', {})
+                self.leaf_opt[len(self.ts) - 1] = optim.SGD([x], lr=0.1)
+                if type(x).__name__ == 'Parameter':
+                    m = nn.Module(); m.register_parameter('w', x); self.leaf_mod[len(self.ts) - 1] = m
             return f't{len(self.ts) - 1}'
         if c == 'op':
             out = self.call_op(t[2], common.parse_ints(t[3]), t[4:])
@@ -356,12 +364,11 @@ class Impl:
             x = self.ts[int(t[2])]
             self.nzero = getattr(self, 'nzero', 0) + 1
             route = self.nzero % 3 if RESET_ROUTES and x.requires_grad and x.is_leaf else 0
-            if route == 1 and type(x).__name__ == 'Parameter':      # the reset every training loop uses: Module.zero_grad
-                from synapgrad import nn
-                m = nn.Module(); m.register_parameter('w', x); m.zero_grad()
-            elif route == 2:                                          # ... or Optimizer.zero_grad
-                from synapgrad import optim
-                optim.SGD([x], lr=0.1).zero_grad()
+            k = int(t[2])
+            if route == 1 and k in getattr(self, 'leaf_mod', {}):      # the reset every training loop uses: Module.zero_grad
+                self.leaf_mod[k].zero_grad()
+            elif route == 2 and k in getattr(self, 'leaf_opt', {}):   # ... or Optimizer.zero_grad, of the optimizer built when the leaf was created
+                self.leaf_opt[k].zero_grad()
             else:
                 x.zero_()
             return 'ok'
